@@ -720,4 +720,104 @@ theorem get?_siteDirs (es : List HtmlEntry) (d : Path) :
   rw [get?_map_keys (dedup (es.map (·.parent))) (fun d => dedup ((es.filter (·.parent = d)).map (·.fname))) d]
   simp only [mem_dedup]
 
+theorem htmlDestName_eq (n : Name) : htmlDestName n = n ++ dotHtml := by
+  unfold htmlDestName dotHtml; split <;> rfl
+
+/-- every component is a `Normal` one -/
+def AllNormal (cs : List Comp) : Prop := ∀ c ∈ cs, ∃ n, c = Comp.normal n
+
+theorem map_normal_normalNames (cs : List Comp) (h : AllNormal cs) : (normalNames cs).map Comp.normal = cs := by
+  induction cs with
+  | nil => rfl
+  | cons c cs ih =>
+    obtain ⟨n, rfl⟩ := h c (by simp)
+    simp [normalNames, ih (fun x hx => h x (by simp [hx]))]
+
+/-- the destination determines the components of a rel path made of `Normal` components -/
+theorem htmlDest_components {rel : Path} {d : List Name} (h : htmlDest rel = some d)
+    (hn : AllNormal (components rel)) :
+    ∃ ns f, d = ns ++ [f ++ dotHtml] ∧ components rel = ns.map Comp.normal ++ [Comp.normal f] := by
+  unfold htmlDest at h
+  split at h
+  · rename_i f revDirs hrev
+    have hc : components rel = revDirs.reverse ++ [Comp.normal f] := by
+      have := congrArg List.reverse hrev; simpa using this
+    have hn' : AllNormal revDirs.reverse := fun c hc' => hn c (by rw [hc]; simp [List.mem_reverse.mp hc'])
+    refine ⟨normalNames revDirs.reverse, f, ?_, ?_⟩
+    · simp only [Option.some.injEq] at h; rw [← h, htmlDestName_eq]
+    · rw [map_normal_normalNames _ hn']; exact hc
+  · cases h
+
+theorem htmlDest_injective {rel rel' : Path} {d : List Name} (h : htmlDest rel = some d)
+    (h' : htmlDest rel' = some d) (hn : AllNormal (components rel)) (hn' : AllNormal (components rel')) :
+    components rel = components rel' := by
+  obtain ⟨ns, f, hd, hc⟩ := htmlDest_components h hn
+  obtain ⟨ns', f', hd', hc'⟩ := htmlDest_components h' hn'
+  rw [hd] at hd'
+  have h1 := List.append_inj' hd' (by simp)
+  have h2 : f = f' := by
+    have := h1.2; simp only [List.cons.injEq, and_true] at this
+    exact List.append_cancel_right this
+  rw [hc, hc', h1.1, h2]
+
+theorem nodup_of_map {α β : Type} (f : α → β) : ∀ {l : List α}, (l.map f).Nodup → l.Nodup
+  | [], _ => List.nodup_nil
+  | a :: l, h => by
+    simp only [List.map_cons, List.nodup_cons, List.mem_map, not_exists, not_and] at h
+    exact List.nodup_cons.mpr ⟨fun ha => h.1 a ha rfl, nodup_of_map f h.2⟩
+
+/-- keys of the images are distinct when the keys of the sources are and equal image keys force
+equal source keys -/
+theorem nodup_filterMap_key {α β κ κ' : Type} (g : α → Option β) (key : β → κ) (k : α → κ') :
+    ∀ (rs : List α), (∀ r ∈ rs, ∀ r' ∈ rs, ∀ y y', g r = some y → g r' = some y' → key y = key y' → k r = k r') →
+      (rs.map k).Nodup → ((rs.filterMap g).map key).Nodup
+  | [], _, _ => by simp
+  | r :: rs, hk, hnd => by
+    simp only [List.map_cons, List.nodup_cons, List.mem_map, not_exists, not_and] at hnd
+    have ih := nodup_filterMap_key g key k rs
+      (fun a ha b hb => hk a (by simp [ha]) b (by simp [hb])) hnd.2
+    cases hg : g r with
+    | none => simpa [List.filterMap_cons, hg] using ih
+    | some y =>
+      rw [List.filterMap_cons, hg]
+      simp only [List.map_cons, List.nodup_cons, List.mem_map, List.mem_filterMap, not_exists, not_and]
+      refine ⟨?_, ih⟩
+      rintro y' ⟨r', hr', hg'⟩ hkey
+      exact hnd.1 r' hr' (hk r (by simp) r' (by simp [hr']) y y' hg hg' hkey.symm).symm
+
+theorem mapM_id_some {α : Type} : ∀ (l : List (Option α)) (es : List α), l.mapM id = some es → l = es.map some
+  | [], es, h => by simp at h; subst h; rfl
+  | a :: l, es, h => by
+    obtain ⟨y, ys, hy, hys, rfl⟩ := mapM_cons_some id a l es h
+    simp only [id] at hy
+    simp [hy, mapM_id_some l ys hys]
+
+/-- destination and file name of one rel path: the destination ends with the file name + ".html" -/
+theorem htmlDest_fileName {rel : Path} {d : List Name} {f : Name} (h : htmlDest rel = some d)
+    (hf : fileNameOf rel = some f) : ∃ ns, d = ns ++ [f ++ dotHtml] := by
+  unfold htmlDest at h
+  unfold fileNameOf at hf
+  split at h
+  · rename_i f' revDirs hrev
+    rw [hrev] at hf
+    simp only [Option.some.injEq] at hf h
+    subst hf
+    exact ⟨_, by rw [← h, htmlDestName_eq]⟩
+  · cases h
+
+theorem indexHtml_eq : indexHtml = indexName ++ dotHtml := by decide
+
+/-- a destination whose file is not named `index` is not the place of an index file -/
+theorem not_isIndexFile (s : HtmlSite) (ns : List Name) (f : Name) (hf : f ≠ indexName) :
+    s.isIndexFile (ns ++ [f ++ dotHtml]) = false := by
+  unfold HtmlSite.isIndexFile
+  rw [List.any_eq_false]
+  intro ix _ hcon
+  simp only [decide_eq_true_eq] at hcon
+  have h1 := List.append_inj' hcon (by simp)
+  have h2 := h1.2
+  simp only [List.cons.injEq, and_true] at h2
+  rw [indexHtml_eq] at h2
+  exact hf (List.append_cancel_right h2).symm
+
 end Grcov.Writers.Docs
